@@ -1,0 +1,11 @@
+//go:build verif
+
+package bbc
+
+// Hook for the out-of-tree verification harness (build tag verif). Add-only.
+
+// VerifFragmentOutLen returns how many Fragments wait in the Connector's outgoing queue and the
+// queue's capacity.
+func (c *Connector) VerifFragmentOutLen() (n, capacity int) {
+	return len(c.fragmentOut), cap(c.fragmentOut)
+}
